@@ -14,6 +14,20 @@ from pymtl3.passes.rtlir.structural.StructuralRTLIRGenL2Pass import (
 from .StructuralTranslatorL1 import StructuralTranslatorL1
 
 
+def _struct_layout( dtype ):
+  """Class name, field names and field types of a struct type, recursively.
+  Struct types are compared by their full name, and the full name does not
+  determine them: Outer{ i: Inner{x:8, y:8}, z:4 } and
+  Outer{ i: Inner{x:8}, y:8, z:4 } are both Outer__i_Inner__x_8__y_8__z_4."""
+  if isinstance( dtype, rdt.Struct ):
+    return ( dtype.get_class().__name__,
+             tuple( ( name, _struct_layout( field ) )
+                    for name, field in dtype.get_all_properties().items() ) )
+  if isinstance( dtype, rdt.PackedArray ):
+    return ( tuple( dtype.get_dim_sizes() ), _struct_layout( dtype.get_sub_dtype() ) )
+  return dtype.get_length()
+
+
 class StructuralTranslatorL2( StructuralTranslatorL1 ):
 
   def __init__( s, top ):
@@ -23,6 +37,8 @@ class StructuralTranslatorL2( StructuralTranslatorL1 ):
     super().clear( tr_top )
     # Declarations
     s.structural.decl_type_struct = {}
+    # The struct type first seen under each name
+    s._struct_of_name = {}
 
   #-----------------------------------------------------------------------
   # _get_structural_rtlir_gen_pass
@@ -72,6 +88,17 @@ class StructuralTranslatorL2( StructuralTranslatorL1 ):
           s.rtlir_data_type_translation( m, value )
 
     if isinstance( dtype, rdt.Struct ):
+      # Two struct types that differ in their fields must not share a name:
+      # only the first would be declared and the signals of the second
+      # would refer to fields that do not exist
+      other = s._struct_of_name.setdefault( dtype.get_name(), dtype )
+      if other is not dtype and _struct_layout( other ) != _struct_layout( dtype ):
+        def show( t ):
+          return f"{t.get_class().__name__}( " + ", ".join( f"{name}: {field.get_full_name()}" \
+                   for name, field in t.get_all_properties().items() ) + " )"
+        raise AssertionError(
+          f"BitStruct types {show(other)} and {show(dtype)} are different but get "
+          f"the same name {dtype.get_name()} in the translation: rename a field or a class!" )
       ret = s.rtlir_tr_struct_dtype( dtype )
       if dtype not in s.structural.decl_type_struct:
         recurse_struct_dtype_translation( dtype )
